@@ -18,8 +18,8 @@ import numpy as np
 cimport numpy as cnp
 from numpy cimport ndarray
 
-from ...core._ext.types import FIELD, INT64TYPE
-from ...core._ext.types cimport MASK_t, FIELD_t, INT64TYPE_t
+from ...core._ext.types import FIELD, DFIELD, INT64TYPE
+from ...core._ext.types cimport MASK_t, FIELD_t, DFIELD_t, INT64TYPE_t
 
 cdef extern from "src_numerics.c":
     void _mutual_information(
@@ -27,7 +27,7 @@ cdef extern from "src_numerics.c":
             double range_min, long *symbolic, long *hist, long *hist2d,
             float *mi)
     void _spearman_corr(int m, int tmax, MASK_t *final_mask,
-            float *time_series_ranked, float *spearman_rho)
+            float *time_series_ranked, double *work, float *spearman_rho)
 
 
 # mutual_info =================================================================
@@ -68,10 +68,13 @@ def spearman_corr(int m, int tmax,
 
     cdef ndarray[FIELD_t, ndim=2, mode='c'] spearman_rho = np.zeros(
         (m, m), dtype=FIELD)
+    cdef ndarray[DFIELD_t, ndim=2, mode='c'] work = np.zeros(
+        (4, tmax), dtype=DFIELD)
 
     _spearman_corr(m, tmax,
             <MASK_t*> cnp.PyArray_DATA(final_mask),
             <FIELD_t*> cnp.PyArray_DATA(time_series_ranked),
+            <DFIELD_t*> cnp.PyArray_DATA(work),
             <FIELD_t*> cnp.PyArray_DATA(spearman_rho))
 
     return spearman_rho
